@@ -57,7 +57,7 @@ def bounds(tier, seed):
         "ts": [0, 0.5, 0.8, 0.95],
         "pilot": [0, 1, 8, 16, 32, 80],
         "V": [208, 240],
-        "T": [1, 5, 60],
+        "T": [1, 5, 60, 150],
         "chain": 2,
     }
 
